@@ -201,7 +201,9 @@ Init ==
 
 E(k, nm, tg) == [k |-> k, name |-> nm[1], nabs |-> nm[2], tg |-> tg[1], tabs |-> tg[2]]
 NoTg == <<<<>>, FALSE>>
-RiskyLinks(f) == {p \in Slots : f[p].t = "sym" /\ LET w == Resolve(f, <<>>, p, TRUE, TRUE) IN w.st = "err" \/ ~Inside(w.p)}
+\* <<link, how it resolves, where to>> for every link that does not resolve below the working directory
+RiskyLinks(f) == {<<p, Resolve(f, <<>>, p, TRUE, TRUE).st, Resolve(f, <<>>, p, TRUE, TRUE).p>> :
+                    p \in {q \in Slots : f[q].t = "sym" /\ LET w == Resolve(f, <<>>, q, TRUE, TRUE) IN w.st = "err" \/ ~Inside(w.p)}}
 Next == /\ ~failed /\ nextIno < 8 /\ Len(hist) < Depth
         /\ \E nm \in Names \cup (IF Named THEN Titles ELSE {}) :
              \/ (nm \in Names /\ EntryReg(nm[1], nm[2]) /\ hist' = Append(hist, E("reg", nm, NoTg)))
